@@ -197,8 +197,8 @@ class ProtocolSuite(common.Suite):
                 mc = GrandCanonical(atoms, exchange_atoms=machine.build_template(case), temperature=300.0, **kw)
         rng = machine.ScriptedRNG()
         streams = machine.Streams()
-        real_rng = mc._rng
-        mc._rng = rng
+        real_rng = common.get_rng(mc)
+        common.set_rng(mc, rng)
         mc.context.rng = rng
         log = []
         nuser = 1 + max([u for e in case["entries"] for u in e["users"]] + [0]) + (1 if case.get("late") else 0)
@@ -263,7 +263,7 @@ class ProtocolSuite(common.Suite):
                                   "log": [list(x) for x in log], "history": {True: "True", False: "False", None: "None"}[verdict],
                                   "natoms": [n0, len(atoms)], "cell_changed": bool((atoms.cell.array != cell0).any())})
             del log[:]
-        mc._rng = real_rng  # to_dict reads the bit generator's state
+        common.set_rng(mc, real_rng)  # to_dict reads the bit generator's state
         d = mc.to_dict()
         out["to_dict_log"] = [list(x) for x in log]
         ser = {}
